@@ -7,34 +7,68 @@ index_information() lists, no two covered documents may have equal index keys (a
 counts as null, an array contributes each of its elements); creating a unique index over
 duplicates must fail and leave no index behind.
 """
+import copy
 import itertools
 import sys
 
 import common
 import hist
 import histcheck
+import wire
 from histcheck import freeze
 
 ID = 'C06'
 SALT = 606
 RULE = ('history = 3-30 generated operations on one collection with unique indexes (single / '
         'nested / compound keys, sparse, partialFilterExpression from a small grammar) created '
-        'before or after the data; indexed fields take values from a tiny pool so that collisions '
+        'before or after the data, also filters that tell ==-equal values apart ({b: {$type: '
+        '"double"}}) together with updates that rewrite a value with an ==-equal one of another '
+        'type (1 <-> 1.0); indexed fields take values from a tiny pool so that collisions '
         'are frequent; every step is compared with the Lean model (outcome, _id sequence, index '
         'names) and the uniqueness rule is evaluated directly on python\'s documents for every '
         'listed unique index; non-trivial = a write is rejected by an index and a later write '
         'succeeds under the same index; distinct = by hash of the history')
 ASSUMPTIONS = [
-    'partial filter expressions are drawn from {c: {$exists: true}}, {b: {$gt: 1}}, {a: 1} and '
-    'evaluated in the oracle by a tiny independent evaluator',
+    'partial filter expressions are drawn from {c: {$exists: true}}, {b: {$gt: 1}}, {a: 1}, '
+    '{b: {$type: "double"}} and evaluated in the oracle by a tiny independent evaluator',
     'TTL-free histories; positional $ paths unmodelled',
 ]
 
 known_labels = {e['id'] for e in common.load_known(ID) if e.get('status') == 'known'}
 
+TYPED = [1, 1.0, 2, 2.0]
+
+
+class Gen06(hist.HistGen):
+    """the shared history generator plus what tells ==-equal documents apart: a partial filter
+    on the BSON type of `b`, documents whose `b` is 1 / 1.0 / 2 / 2.0 and updates that rewrite
+    `b` with such a value (an update 1 -> 1.0 is "not modified" for `_apply_update`, yet moves
+    the document into the index: the repaired finding partial-type-sensitive)"""
+
+    def create_index(self):
+        op = super(Gen06, self).create_index()
+        if op[2].get('unique') and self.r.random() < 0.3:
+            op[2]['partialFilterExpression'] = {'b': {'$type': 'double'}}
+        return op
+
+    def new_doc(self):
+        d = super(Gen06, self).new_doc()
+        if self.r.random() < 0.3:
+            d['b'] = self.r.choice(TYPED)
+        return d
+
+    def op(self):
+        if self.r.random() < 0.1:
+            d = self.some_doc()
+            f = {'_id': copy.deepcopy(d['_id'])} if d and '_id' in d and self.r.random() < 0.6 \
+                else {}
+            k = 'update_one' if f or self.r.random() < 0.5 else 'update_many'
+            return [k, f, {'$set': {'b': self.r.choice(TYPED)}}, False]
+        return super(Gen06, self).op()
+
 
 def histgen(rng, oids):
-    hg = hist.HistGen(rng, oids, weights=dict(
+    hg = Gen06(rng, oids, weights=dict(
         insert_one=22, insert_many=8, update_one=14, update_many=6, replace_one=8,
         delete_one=4, delete_many=1, find=0, count=0, distinct=0, create_index=12,
         drop_index=2, drop_indexes=1, drop=1), ttl=False)
@@ -100,8 +134,9 @@ def pfe_holds(pfe, doc):
         b = doc.get('b')
         vals = b if isinstance(b, list) else [b]
         return any(isinstance(x, (int, float)) and not isinstance(x, bool) and x > 1 for x in vals)
-    if pfe == {'t': {'$type': 'double'}}:
-        t = doc.get('t')
+    if isinstance(pfe, dict) and len(pfe) == 1 and list(pfe.values())[0] == {'$type': 'double'} \
+            and '.' not in list(pfe)[0]:
+        t = doc.get(list(pfe)[0])
         vals = (t + [t]) if isinstance(t, list) else [t]
         return any(isinstance(x, float) for x in vals)
     if pfe == {'a': 1}:
@@ -154,15 +189,25 @@ def classify(ix, d1, d2):
     per1 = [values_at(d1, k.split('.')) for k in ix['key']]
     per2 = [values_at(d2, k.split('.')) for k in ix['key']]
     flat = list(itertools.chain(*per1, *per2))
-    if ix['pfe'] == {'t': {'$type': 'double'}}:
-        return 'partial-type-sensitive'
     if any(isinstance(v, list) for k in ix['key'] for v in [get_raw(d1, k), get_raw(d2, k)]):
         return 'multikey'
     if any(dead_end(d, k) for k in ix['key'] for d in (d1, d2)):
         return 'deadend-null'
     if ix['sparse'] and any(v is None for v in flat):
         return 'sparse-null'
+    if any(has_dollar_key(get_raw(d, k)) for k in ix['key'] for d in (d1, d2)):
+        return 'operator-like-value'
     return 'unique-violated'
+
+
+def has_dollar_key(v):
+    """an embedded document with a $-prefixed key: the uniqueness look-up reads it as a query
+    operator instead of as data"""
+    if isinstance(v, dict):
+        return any(str(k).startswith('$') or has_dollar_key(x) for k, x in v.items())
+    if isinstance(v, list):
+        return any(has_dollar_key(x) for x in v)
+    return False
 
 
 def dead_end(doc, key):
@@ -249,4 +294,25 @@ def nontrivial(history, steps):
     return False
 
 
-run, replay, replay_finding = histcheck.module_api(sys.modules[__name__], 1000, 25000)
+_run, replay, replay_finding = histcheck.module_api(sys.modules[__name__], 1000, 25000)
+
+
+def run(ctx, proof, driver_ok):
+    """the generated histories, and before them the witnesses of the findings repaired in the
+    library: each goes through the oracle and the correspondence, a recurrence is a VIOLATION"""
+    if not driver_ok:
+        return _run(ctx, proof, driver_ok)
+    eng = histcheck.Engine(ctx, sys.modules[__name__])
+    replayed = 0
+    for e in common.load_known(ID):
+        if e.get('status') != 'fixed' or not (e.get('witness') or {}).get('wire_history'):
+            continue
+        oids = wire.Oids()
+        history = wire.dec(e['witness']['wire_history'], oids)
+        py = histcheck.run_history(history, oids, probe=probe)
+        out = wire.run_driver([hist.model_line(history, oids, False)])
+        eng.judge(history, oids, py, histcheck.model_steps(history, out[0]))
+        replayed += 1
+    cov = eng.run(ctx.n(1000, 25000))
+    cov['fixed_witnesses_replayed'] = replayed
+    return cov
